@@ -139,6 +139,19 @@ func init() {
 		Models:      []string{"as C02"},
 	})
 	reg(&PropSpec{
+		ID: "C10", Prefix: "vh_C10_", MaxSteps: 20000000,
+		Quick:    Tier{Params: map[string]int{"kwpos": 2}},
+		Thorough: Tier{Params: map[string]int{"kwpos": 12}},
+		Bounds: []string{
+			"single-document worlds: definitions A,B with reference slots (A,B: all cycle shapes on two nodes), a parameter and a response that are inline (schema -> A) or a $ref to a second parameter / response (schema -> B)",
+			"entry points: ExpandSchema with typed root, generic root, warm cache, cache previously used with another root; ExpandSchemaWithBasePath (with and without base location); ExpandParameterWithRoot; ExpandResponseWithRoot; the element is decoded separately (no shared storage)",
+			"oracle: bisimulation between the element in its root and the result placed back into the root; C03's cut-point condition on remaining $refs; root JSON identical before/after; caller's options field-wise unchanged",
+		},
+		Outside:     []string{"multi-document roots for the WithRoot entry points (they cannot reach other documents by design)", "writes that leave the root's JSON unchanged"},
+		Assumptions: []string{"as C02"},
+		Models:      []string{"as C02"},
+	})
+	reg(&PropSpec{
 		ID: "C11", Prefix: "vh_C11_",
 		Quick:    Tier{Params: map[string]int{"segs": 2, "seg_len": 2}},
 		Thorough: Tier{Params: map[string]int{"segs": 3, "seg_len": 2}},
